@@ -23,7 +23,10 @@ class Tok:
 PASS = ("RefCell::borrow", "RefCell::borrow_mut", "std::ops::Deref>::deref", "std::ops::DerefMut>::deref_mut",
         "std::convert::AsRef>::as_ref", "std::option::Option::as_ref", "Option<T>::as_ref", "std::option::Option::as_deref",
         "Option<T>::as_deref", "std::borrow::Borrow>::borrow", "std::borrow::BorrowMut>::borrow_mut", "Ref::map", "RefMut::map",
-        "std::option::Option::as_mut", "Option<T>::as_mut", "std::clone::Clone>::clone")
+        "std::option::Option::as_mut", "Option<T>::as_mut", "std::clone::Clone>::clone",
+        # a copy of the name is still the name
+        "std::string::ToString>::to_string", "std::borrow::ToOwned>::to_owned", "std::convert::From>::from",
+        "std::convert::Into>::into", "str>::to_string", "str>::to_owned", "String::as_str")
 
 
 def chain(n):
@@ -35,73 +38,46 @@ def chain(n):
 
 
 def walk(fb, name, found, n=3):
+    from . import machine
+    from .machine import NOT
     f = fb.find(SCOPE + name)
     NAME, VALUE = Tok("name", "name"), Tok("value", "value")
-    ev = {"lookups": [], "stores": [], "inserts": [], "other": []}
-    budget = [12]
+    ev = {"lookups": [], "stores": [], "inserts": [], "other": [], "panics": []}
 
-    def run(scope):
-        if budget[0] <= 0:
-            raise absint.Loop("recursion budget")
-        budget[0] -= 1
+    def is_name(x):
+        return x is NAME
 
-        def oracle(ff, bb, tt, env):
-            c = callee(tt) or ""
-            a = [absint.operand(env, x) for x in tt["args"]]
-            a0 = a[0] if a else None
-            if c == f.name:
-                return run(a0)
-            if c.startswith(SCOPE):
-                ev["other"].append(c.rsplit("::", 1)[-1])
-                return None
+    def intercept(mc, c, a, tt, g):
+        a0 = a[0] if a else None
+        if c.startswith(SCOPE) and c.rsplit("::", 1)[-1] in ("define", "set", "get", "get_mut") and c != f.name and g.name == f.name:
+            ev["other"].append(c.rsplit("::", 1)[-1])       # one primitive written through another: followed, and noted
+            return NOT
+        if isinstance(a0, Tok) and a0.kind == "defs":
             if c.endswith("HashMap::contains_key"):
-                if isinstance(a0, Tok) and a0.kind == "defs":
-                    ev["lookups"].append(a0.tag)
-                    return a0.tag in found if a[1] is NAME else absint.UNKNOWN
-                return absint.UNKNOWN
+                ev["lookups"].append(a0.tag)
+                return (a0.tag in found) if is_name(a[1]) else absint.UNKNOWN
             if c.endswith("HashMap::get") or c.endswith("HashMap::get_mut"):
-                if isinstance(a0, Tok) and a0.kind == "defs":
-                    ev["lookups"].append(a0.tag)
-                    if a[1] is not NAME:
-                        return absint.UNKNOWN
-                    r = absint.Enum(1, [Tok("slot", a0.tag)]) if a0.tag in found else absint.Enum(0, [])
-                    r.name = "Some" if a0.tag in found else "None"
-                    return r
-                return absint.UNKNOWN
+                ev["lookups"].append(a0.tag)
+                if not is_name(a[1]):
+                    return absint.UNKNOWN
+                return machine.some(Tok("slot", a0.tag)) if a0.tag in found else machine.none()
             if callee_matches(tt, "HashMap::insert", "HashMap::entry", "HashMap::remove"):
-                ev["inserts"].append((c.rsplit("::", 1)[-1], a0.tag if isinstance(a0, Tok) else None,
-                                      a[1] is NAME if len(a) > 1 else None, a[2] is VALUE if len(a) > 2 else None))
-                return absint.Enum(0, [])
-            if c.endswith("std::ops::Try>::branch"):
-                if isinstance(a0, absint.Enum):
-                    if "option::Option" in c:
-                        return absint.Enum(0, list(a0.fields)) if a0.variant == 1 else absint.Enum(1, [absint.Enum(0, [])])
-                    return absint.Enum(a0.variant, list(a0.fields))
-                return absint.UNKNOWN
-            if c.endswith("FromResidual>::from_residual"):
-                if "option::Option" in c:
-                    r = absint.Enum(0, [])
-                    r.name = "None"
-                    return r
-                r = absint.Enum(1, [absint.UNKNOWN])
-                r.name = "Err"
-                return r
-            if c.endswith("Option<T>::unwrap") or c.endswith("Option::unwrap") or c.endswith("Option::expect"):
-                return a0.fields[0] if isinstance(a0, absint.Enum) and a0.variant == 1 and a0.fields else absint.UNKNOWN
-            if callee_matches(tt, *PASS):
-                return a0
-            return None
+                ev["inserts"].append((c.rsplit("::", 1)[-1], a0.tag, is_name(a[1]) if len(a) > 1 else None,
+                                      a[2] is VALUE if len(a) > 2 else None))
+                return machine.none()
+            if callee_matches(tt, "Ref::map", "RefMut::map", "Ref::map_val") and len(a) > 1:
+                return mc.call_value(a[1], [a0])
+        return NOT
 
-        def on_store(target, place, val, b):
-            if isinstance(target, Tok) and target.kind == "slot":
-                ev["stores"].append((target.tag, val is VALUE))
-        env = {1: scope, 2: NAME, 3: VALUE}
-        kind, b, env2 = absint.run_fragment(f, 0, env, oracle=oracle, max_visits=n + 2, on_store=on_store)
-        return env2.get(0)
+    def on_store(target, place, val, b):
+        if isinstance(target, Tok) and target.kind == "slot":
+            ev["stores"].append((target.tag, val is VALUE))
+    mc = machine.Machine(fb, intercept=intercept, max_visits=n + 2, budget=60, on_store=on_store)
     try:
-        res = run(chain(n))
+        res = mc.run(f, [chain(n), NAME, VALUE])
     except (absint.Stuck, absint.Loop) as e:
         return {"stuck": str(e), **ev}
+    ev["panics"] = [e[1] + " in " + e[2] for e in mc.events if e[0] == "panic"]
     out = dict(ev)
     if isinstance(res, absint.Enum):
         out["result"] = getattr(res, "name", None) or str(res.variant)
@@ -145,19 +121,25 @@ def table(ctx, fb, rule, name, n=3):
             ctx.report(rule, key, "cannot follow LexicalScope::%s on a chain where frames %s bind the name (%s)" % (name, sorted(found), r["stuck"]), where_of(f))
             continue
         if name == "set":
-            ok = r["stores"] == ([(inner, True)] if found else []) and not r["inserts"] and not r["other"] and \
+            # overwriting by re-inserting under the same name into the frame that already binds it is the same effect
+            effects = r["stores"] + [(fr, v) for (how, fr, k, v) in r["inserts"] if how == "insert" and k and fr in found]
+            other_ins = [x for x in r["inserts"] if not (x[0] == "insert" and x[2] and x[1] in found)]
+            ok = effects == ([(inner, True)] if found else []) and not other_ins and \
                 r["result"] == ("Ok" if found else "Err")
             want = ("one store of the value into the binding of frame %s, Ok" % inner) if found else "no store, Err"
             got = "stores %s inserts %s result %s%s" % (r["stores"], r["inserts"], r["result"], (" calls " + str(r["other"])) if r["other"] else "")
         elif name in ("get", "get_mut"):
             ok = (r["result"] == "Some" and r["result_binding"] == [inner]) if found else r["result"] == "None"
-            ok = ok and not r["stores"] and not r["inserts"] and not r["other"]
+            ok = ok and not r["stores"] and not r["inserts"]
             want = ("Some(binding of frame %s)" % inner) if found else "None"
             got = "%s %s" % (r["result"], r["result_binding"])
         else:  # define
-            ok = r["inserts"] == [("insert", 0, True, True)] and not r["stores"] and not r["other"]
+            ok = r["inserts"] == [("insert", 0, True, True)] and not r["stores"]
             want = "one insert of (name, value) into frame 0"
             got = "inserts %s stores %s%s" % (r["inserts"], r["stores"], (" calls " + str(r["other"])) if r["other"] else "")
+        if r.get("panics"):
+            ok = False
+            got += " PANICS: %s" % r["panics"]
         ctx.oblige(ok)
         if not ok:
             ctx.report(rule, key, "LexicalScope::%s with the name bound in frames %s of F0->F1->F2: %s; expected %s" % (
